@@ -1464,3 +1464,249 @@ func c17BothSeps(rc *RuleCtx) {
 		}
 	}
 }
+
+// ---- round 10 ----
+
+func init() {
+	register(&Rule{ID: "C02.advance", Floor: 2,
+		Text: "Read moves the offset of the handle by what it delivered: in the Read methods of MemFile and OrefaFile the value added to the offset field is the number of bytes copied (the result of copy), never the length of the caller's buffer - a short read at the end of the file would leave the offset beyond the size, and the next Write a gap of zeros that os.File does not make",
+		Run:  c02Advance})
+	register(&Rule{ID: "C10.errpath", Floor: 1,
+		Text: "fromErrorPath hands a path back untranslated only when it does not start with the base path: every return of its argument as it came lies on the branch where HasPrefix(path, basePath) answered false - a further test (on the length, say) that also skips the translation lets the base path itself, or a path it mis-measures, through to the caller, which then sees where the base directory lives",
+		Run:  c10ErrPath})
+	register(&Rule{ID: "C12.readthrough", Floor: 1,
+		Text: "the generic ReadFile, which FailFS runs over itself, answers without error only after a Read of the file answered: every return that may carry a nil error is dominated by a call of File.Read - a short cut for a file whose Stat says it is empty skips the primitive, so a failure planned for it never fires and its invocation count drifts",
+		Run:  c12ReadThrough})
+	register(&Rule{ID: "C14.type", Floor: 2,
+		Text: "DirEntry.Type() of the in-memory file systems is the type bits of the mode and nothing else: every Type method of memfs / orefafs / avfs returning fs.FileMode returns `mode & fs.ModeType` or FileMode.Type() (os.ReadDir and WalkDir hand out entries whose Type() carries no permission, setuid, setgid or sticky bit)",
+		Run:  c14Type})
+	register(&Rule{ID: "C17.missing", Floor: 1, Also: []string{"C01"}, AlsoFloor: map[string]int{"C01": 1},
+		Text: "MemFS asks whether a walk stopped on something missing only through its not-exist predicate: outside that predicate no error is compared with the NoSuchFile or NoSuchDir entry of the error table - the two are one value on POSIX and two on Windows, so a comparison with one of them behaves on a Linux-typed file system and misclassifies the other kind of 'missing' on a Windows-typed one",
+		Run:  c17Missing})
+}
+
+func c02Advance(rc *RuleCtx) {
+	for _, t := range []struct{ pk, typ string }{{"memfs", "MemFile"}, {"orefafs", "OrefaFile"}} {
+		f := rc.C.methodsOf(t.pk, t.typ)["Read"]
+		cons := fmt.Sprintf("%s.(*%s).Read advances by the bytes copied", t.pk, t.typ)
+		if f == nil || len(f.Params) < 2 {
+			rc.anchor(cons)
+			continue
+		}
+		buf := ssa.Value(f.Params[1])
+		n := 0
+		var badAt token.Pos
+		eachInstr(f, func(in ssa.Instruction) {
+			st, ok := in.(*ssa.Store)
+			if !ok {
+				return
+			}
+			fa, ok := st.Addr.(*ssa.FieldAddr)
+			if !ok || fieldName(fa.X.Type(), fa.Field) != "at" {
+				return
+			}
+			b, ok := strip(st.Val).(*ssa.BinOp)
+			if !ok || b.Op != token.ADD {
+				return
+			}
+			n++
+			for _, side := range []ssa.Value{b.X, b.Y} {
+				for _, o := range originsOf(side) {
+					if c, ok := o.(*ssa.Call); ok {
+						if bi, ok := c.Call.Value.(*ssa.Builtin); ok && bi.Name() == "len" && len(c.Call.Args) == 1 && strip(c.Call.Args[0]) == buf && badAt == token.NoPos {
+							badAt = st.Pos()
+						}
+					}
+				}
+			}
+		})
+		switch {
+		case badAt != token.NoPos:
+			rc.bad(cons, badAt, "the offset is advanced by len of the caller's buffer: after a short read (or a read at the end of the file) the offset lies beyond what was delivered")
+		case n == 0:
+			rc.bad(cons, f.Pos(), "no advance of the offset was recognised in Read")
+		default:
+			rc.good(cons, f.Pos(), "the offset moves by the count of the copy")
+		}
+	}
+}
+
+func c10ErrPath(rc *RuleCtx) {
+	f := rc.C.method("basepathfs", "BasePathFS", "fromErrorPath")
+	cons := "basepathfs.(*BasePathFS).fromErrorPath untranslated only off the base path"
+	if f == nil || len(f.Params) < 2 {
+		rc.anchor(cons)
+		return
+	}
+	par := ssa.Value(f.Params[1])
+	n, bad := 0, 0
+	var at token.Pos
+	for _, r := range returnsOf(f) {
+		v := returnOperandOr(r, 0)
+		same := false
+		for _, o := range originsOf(v) {
+			if o == par {
+				same = true
+			}
+		}
+		if !same {
+			continue
+		}
+		n++
+		off := false
+		for _, fa := range factsAt(r.Block()) {
+			c, truth := normCond(fa.Cond, fa.Truth)
+			if call, ok := c.(*ssa.Call); ok && !truth {
+				if fn := calleeFunc(call); fn != nil && fn.Name() == "HasPrefix" && len(call.Call.Args) == 2 && strip(call.Call.Args[0]) == par && isFieldLoad(resolve1(call.Call.Args[1]), "basePath") {
+					off = true
+				}
+			}
+		}
+		if !off {
+			bad++
+			if at == token.NoPos {
+				at = r.Pos()
+			}
+		}
+	}
+	switch {
+	case n == 0:
+		rc.bad(cons, f.Pos(), "no return of the argument as it came was recognised")
+	case bad > 0:
+		rc.bad(cons, at, "the path is handed back untranslated on a way that has not established HasPrefix(path, basePath) == false: a path that does start with the base path (the base path itself, for a length test with <=) reaches the caller as the base file system spelled it")
+	default:
+		rc.good(cons, f.Pos(), fmt.Sprintf("%d untranslated returns, each off the base path", n))
+	}
+}
+
+func c12ReadThrough(rc *RuleCtx) {
+	f := rc.C.fn("avfs", "ReadFile")
+	cons := "avfs.ReadFile succeeds only after a Read"
+	if f == nil {
+		rc.anchor(cons)
+		return
+	}
+	var reads []ssa.Instruction
+	eachCall(f, func(ci ssa.CallInstruction) {
+		if fn := calleeFunc(ci); fn != nil && fn.Name() == "Read" && ci.Common().IsInvoke() {
+			reads = append(reads, ci)
+		}
+	})
+	if len(reads) == 0 {
+		rc.bad(cons, f.Pos(), "ReadFile makes no Read")
+		return
+	}
+	ei := errResultIndex(f.Signature)
+	var at token.Pos
+	n := 0
+	for _, r := range returnsOf(f) {
+		v := returnOperandOr(r, ei)
+		if errNonNil(rc.C, v, factsAt(r.Block()), 0) {
+			continue
+		}
+		n++
+		dom := false
+		for _, rd := range reads {
+			if domInstr(rd, r) {
+				dom = true
+			}
+		}
+		if !dom && at == token.NoPos {
+			at = r.Pos()
+		}
+	}
+	if at != token.NoPos {
+		rc.bad(cons, at, "a return that may carry a nil error is reached without a Read of the file: the primitive is skipped for some files, so a failure planned for it is not reported")
+	} else {
+		rc.good(cons, f.Pos(), fmt.Sprintf("%d possibly successful return(s), each after a Read", n))
+	}
+}
+
+func c14Type(rc *RuleCtx) {
+	var typeMask int64 = -1
+	if fsPkg := rc.C.Prog.ImportedPackage("io/fs"); fsPkg != nil {
+		if k, ok := fsPkg.Pkg.Scope().Lookup("ModeType").(*types.Const); ok {
+			if u, exact := constant.Uint64Val(k.Val()); exact {
+				typeMask = int64(u)
+			}
+		}
+	}
+	if typeMask < 0 {
+		rc.anchor("io/fs.ModeType")
+		return
+	}
+	for _, pk := range []string{"memfs", "orefafs", "avfs"} {
+		for _, f := range rc.C.srcFuncs(pk) {
+			if f.Name() != "Type" || f.Signature.Recv() == nil || f.Signature.Results().Len() != 1 || f.Signature.Params().Len() != 0 {
+				continue
+			}
+			if n := namedOf(f.Signature.Results().At(0).Type()); n == nil || n.Obj().Name() != "FileMode" {
+				continue
+			}
+			cons := funcName(f) + " type bits only"
+			ok := true
+			for _, r := range returnsOf(f) {
+				for _, o := range originsOf(returnOperandOr(r, 0)) {
+					switch x := o.(type) {
+					case *ssa.BinOp:
+						k, isC := constInt(x.Y)
+						if x.Op != token.AND || !isC || uint32(k) != uint32(typeMask) {
+							ok = false
+						}
+					case *ssa.Call:
+						if fn := calleeFunc(x); fn == nil || fn.Name() != "Type" {
+							ok = false
+						}
+					default:
+						ok = false
+					}
+				}
+			}
+			if ok {
+				rc.good(cons, f.Pos(), "mode & fs.ModeType (or FileMode.Type())")
+			} else {
+				rc.bad(cons, f.Pos(), "Type() does not return the mode masked with fs.ModeType: permission, setuid, setgid or sticky bits show in the type of a directory entry, where os.ReadDir and WalkDir report the type bits only")
+			}
+		}
+	}
+}
+
+func c17Missing(rc *RuleCtx) {
+	pred := rc.C.method("memfs", "MemFS", "isNotExist")
+	if pred == nil {
+		rc.anchor("memfs.(*MemFS).isNotExist")
+		return
+	}
+	for _, f := range rc.C.srcFuncs("memfs") {
+		if rc.C.inlinedAway(f) || f.Synthetic != "" || f == pred {
+			continue
+		}
+		var at token.Pos
+		n := 0
+		eachInstr(f, func(in ssa.Instruction) {
+			b, ok := in.(*ssa.BinOp)
+			if !ok || (b.Op != token.EQL && b.Op != token.NEQ) || !isErrorType(b.X.Type()) {
+				return
+			}
+			n++
+			for _, side := range []ssa.Value{b.X, b.Y} {
+				if ld, ok := strip(side).(*ssa.UnOp); ok && ld.Op == token.MUL {
+					if fa, ok := ld.X.(*ssa.FieldAddr); ok {
+						if nm := fieldName(fa.X.Type(), fa.Field); (nm == "NoSuchFile" || nm == "NoSuchDir") && at == token.NoPos {
+							at = b.Pos()
+						}
+					}
+				}
+			}
+		})
+		if n == 0 {
+			continue
+		}
+		cons := funcName(f) + " asks the predicate for 'missing'"
+		if at != token.NoPos {
+			rc.bad(cons, at, "an error is compared with the NoSuchFile / NoSuchDir entry of the error table directly: on a Windows-typed file system the two are different values, so the other kind of 'missing' (a missing parent directory or volume) takes the other branch")
+		} else {
+			rc.good(cons, f.Pos(), fmt.Sprintf("%d error comparisons, none with NoSuchFile / NoSuchDir", n))
+		}
+	}
+}
